@@ -198,7 +198,8 @@ class TreeCheck:
                 return
             b = case["_base"]
             drng = random.Random(rng.random())
-            for plan, meta in self.derive(b, facts, drng, tier):
+            for ri, (plan, meta) in enumerate(self.derive(b, facts, drng, tier)):
+                meta = dict(meta, _bi=bases.index(b), _ri=ri)
                 bb = b
                 if "program" in plan:
                     bb = dict(b, program=plan.pop("program"))
@@ -229,6 +230,9 @@ class TreeCheck:
         cov["capped_known_hang_class_cases"] = {k: v for k, v in capped.items()}
         derived = kept
         # ---- phase 2: derived cases
+        # round-robin over the base programs (targeted family plans first), so that a short time budget thins every program's
+        # plans out instead of dropping the programs at the end of the list (where some stratified families sit)
+        derived.sort(key=lambda c: (0 if c["meta"].get("at") else 1, c["meta"].get("_ri", 0), c["meta"].get("_bi", 0)))
         rng.shuffle(derived) if self.shuffle_derived else None
         remaining = max(10.0, budget_s - (time.monotonic() - t0))
         st2 = runner.run_cases(derived, analyse, jobs=self.jobs, budget_s=remaining, scratch=os.path.join(scratch, "p2"))
